@@ -656,10 +656,12 @@ def _model_to_sbml(
 
 def _default_compartments(
     compartments: dict[str, Compartment] | None,
+    taken: set[str],
 ) -> dict[str, Compartment]:
+    """Compartments to write; their ids must differ from the ids of the model's components."""
     if compartments is None:
         return {
-            "compartment": Compartment(
+            _free_reference("compartment", taken): Compartment(
                 name="compartment",
                 dimensions=3,
                 size=1,
@@ -667,6 +669,9 @@ def _default_compartments(
                 is_constant=True,
             )
         }
+    if clash := sorted(taken.intersection(compartments)):
+        msg = f"Compartment ids are also names of model components: {clash}"
+        raise ValueError(msg)
     return compartments
 
 
@@ -723,7 +728,7 @@ def write(
         extent_units=extent_units,
         substance_units=substance_units,
         time_units=time_units,
-        compartments=_default_compartments(compartments),
+        compartments=_default_compartments(compartments, taken=set(model.ids)),
     )
 
     libsbml.writeSBMLToFile(doc, str(file))
